@@ -253,6 +253,9 @@ struct PlanPeer {
     plan: PeerPlan,
     seen: usize,
     log: Arc<Mutex<PeerLog>>,
+    /// bytes of a request that has not arrived completely yet (a transport under back-pressure
+    /// accepts a frame in pieces)
+    acc: Vec<u8>,
 }
 
 pub fn genuine_values(seed: u64) -> (Vec<bool>, Vec<u16>) {
@@ -283,12 +286,39 @@ pub fn frame_reply(fr: Fr, tx: u16, unit: u8, pdu: &[u8]) -> Vec<u8> {
 
 impl Peer for PlanPeer {
     fn on_write(&mut self, now: Duration, data: &[u8]) -> Vec<(Duration, ReadEv)> {
+        self.log.lock().unwrap().writes.push((now + self.base, data.to_vec()));
+        if self.acc.is_empty() {
+            // the usual case: one write, one frame (or something the deframer cannot place:
+            // handled as one request as before)
+            let whole = match self.fr {
+                Fr::Mbap => matches!(deframe_mbap(data).1, crate::model::framing::MbapEnd::Partial(_)),
+                Fr::Rtu => matches!(deframe_rtu(Direction::Request, data).1, crate::model::framing::RtuEnd::Partial(_)),
+            };
+            if !whole {
+                return self.on_request(now, data);
+            }
+        }
+        // a frame arriving in pieces: act when it is complete
+        self.acc.extend_from_slice(data);
+        let partial = match self.fr {
+            Fr::Mbap => matches!(deframe_mbap(&self.acc).1, crate::model::framing::MbapEnd::Partial(_)),
+            Fr::Rtu => matches!(deframe_rtu(Direction::Request, &self.acc).1, crate::model::framing::RtuEnd::Partial(_)),
+        };
+        if partial {
+            return Vec::new();
+        }
+        let whole = std::mem::take(&mut self.acc);
+        self.on_request(now, &whole)
+    }
+}
+
+impl PlanPeer {
+    fn on_request(&mut self, now: Duration, data: &[u8]) -> Vec<(Duration, ReadEv)> {
         // the logs carry absolute times
         let now = now + self.base;
         let k = self.seen;
         self.seen += 1;
         let mut log = self.log.lock().unwrap();
-        log.writes.push((now, data.to_vec()));
         // decode what was written with the reference deframer
         let (tx, unit, pdu) = match self.fr {
             Fr::Mbap => {
@@ -798,6 +828,7 @@ pub fn run_client(case: &CliCase) -> CliRun {
                         plan: plan.peer.clone(),
                         seen: 0,
                         log: plog,
+                        acc: Vec::new(),
                     };
                     let script: Vec<(Duration, ReadEv)> = {
                         let mut t = 0u64;
